@@ -497,8 +497,16 @@ impl Ref {
         // SVG implementation notes: zero radius => straight line; identical endpoints => nothing
         // drawn (lyon draws a zero-length line: accepted, it does not change the geometry)
         let from = self.cur;
-        // after an earlier arc the implementation's current point is only near ours: if the
-        // target is within that allowance it may or may not see identical endpoints
+        // SVG: an arc whose endpoints are identical is omitted.  Once coordinates are rounded f32
+        // values (after an earlier arc) "identical" is only meaningful up to the rounding
+        // envelope `tol()` = 1e-4 * (1 + largest coordinate magnitude seen so far) — far above
+        // 16 ulp of that magnitude and above the thresholds lyon itself uses here
+        // (`is_straight_line`: |r| <= f32::EPSILON or from == to exactly; `arc`: centre
+        // `approx_eq` within 1e-6).  Within that envelope the implementation may legitimately see
+        // identical endpoints (a line), nearly identical ones (a tiny chain, or no piece at all
+        // when the sweep rounds to zero), so `or_line` accepts: one line to the target, a chain
+        // ending at the target, or no edge at all with the current point left within the
+        // envelope of the target.
         let allowance = self.tol();
         let same = dist(from, to) <= allowance;
         if a.radii.x == 0.0 || a.radii.y == 0.0 || (same && !self.inexact) {
@@ -747,6 +755,12 @@ fn oracle(cmds: &[Cmd], r: &Run, orc: &mut Oracle) {
                     let _ = at;
                     let t = tol;
                     let mut j = k;
+                    if *or_line && got.len() == k {
+                        // arc omitted: nothing drawn, current point unchanged or set to the target
+                        if dist(p2(r.curs[i]), *to) <= t + dist(*from, *to) {
+                            continue;
+                        }
+                    }
                     if *or_line && got.len() == k + 1 {
                         if let Some(Call::L(q)) = got.get(k) {
                             if dist(p2(*q), *to) <= t {
